@@ -66,6 +66,10 @@ type c18Event struct {
 	Deadline int64  `json:"deadline"`
 	Height   int64  `json:"height"`
 	Ans      string `json:"ans"`
+	// the fee rate each input of the request was offered before (0: never)
+	Prevs []int64 `json:"prevs"`
+	// 1: group the inputs with the real BudgetAggregator, 0: one BudgetInputSet in the given order
+	Agg int `json:"agg"`
 }
 
 // ---------------------------------------------------------------- fakes
@@ -260,6 +264,14 @@ type c18Run struct {
 	pubAns  []string
 	nlow    int
 	nin     int
+
+	// the sweeper's side of a request: pending inputs, how they are grouped
+	sw       *UtxoSweeper
+	order    []wire.OutPoint
+	useAgg   bool
+	maxRate  int64
+	deadline int32
+	set      InputSet
 }
 
 func (r *c18Run) next(q *[]string) string {
@@ -277,7 +289,7 @@ func (r *c18Run) base(a string) verifkit.Rec {
 		"weight": 1, "totalin": 0, "reqout": 0, "dust": 0, "deadline": 0, "height": 0, "nin": 0,
 		"maxallowed": 0, "live": 0, "start": 0, "end": 0, "width": 0, "pos": 0, "cur": 0, "delta": 0,
 		"inc": 0, "err": "none", "rate": 0, "fee": 0, "change": 0, "nout": 0, "outs": [][]int64{},
-		"ins": []int{}, "ans": "", "event": "", "wallet": 0}
+		"ins": []int{}, "ans": "", "event": "", "wallet": 0, "prevs": []int64{}}
 }
 
 func (r *c18Run) ffFields(rec verifkit.Rec, f *LinearFeeFunction) {
@@ -411,11 +423,87 @@ func (r *c18Run) install(a string, req *BumpRequest, nwallet int) {
 	rec["sopt"] = int64(req.StartingFeeRate.UnwrapOr(-1))
 	rec["nin"] = len(req.Inputs)
 	rec["wallet"] = nwallet
+	prevs := []int64{}
+	if bs, ok := r.set.(*BudgetInputSet); ok {
+		for _, si := range bs.inputs {
+			prevs = append(prevs, int64(si.params.StartingFeeRate.UnwrapOr(0)))
+		}
+	}
+	rec["prevs"] = prevs
 	r.out.Emit(rec)
 }
 
-// doReq builds the request of a generated schedule directly (the model chose
-// the sums; the values are spread over the inputs).
+// offer hands an input to the sweeper (UtxoSweeper.inputs).  prev > 0: the
+// input was swept before on its own and that sweep failed handing back the
+// rate prev - recorded the way the sweeper records it.
+func (r *c18Run) offer(in input.Input, budget int64, prev int64) {
+	pi := &SweeperInput{Input: in, state: Published, params: Params{Budget: btcutil.Amount(budget),
+		DeadlineHeight: fn.Some(r.deadline)}, DeadlineHeight: r.deadline}
+	r.sw.inputs[in.OutPoint()] = pi
+	r.order = append(r.order, in.OutPoint())
+	if prev > 0 {
+		one, err := NewBudgetInputSet([]SweeperInput{*pi}, r.deadline, fn.None[AuxSweeper]())
+		if err != nil {
+			r.t.Fatal(err)
+		}
+		r.sw.markInputsPublishFailed(one, chainfee.SatPerKWeight(prev))
+	}
+}
+
+// regroup is UtxoSweeper.sweepPendingInputs + sweep up to the BumpRequest:
+// cluster the pending inputs (real BudgetAggregator, or one real
+// BudgetInputSet in the order offered), top up from the wallet, mark the
+// inputs pending, build the request from the set.
+func (r *c18Run) regroup() (*BumpRequest, int, bool) {
+	var set InputSet
+	if r.useAgg {
+		sets := NewBudgetAggregator(r.est, 100, fn.None[AuxSweeper]()).ClusterInputs(r.sw.inputs)
+		if len(sets) == 0 {
+			return nil, 0, false
+		}
+		set = sets[0]
+	} else {
+		var list []SweeperInput
+		for _, op := range r.order {
+			list = append(list, *r.sw.inputs[op])
+		}
+		bs, err := NewBudgetInputSet(list, r.deadline, fn.None[AuxSweeper]())
+		if err != nil {
+			r.t.Fatal(err)
+		}
+		set = bs
+	}
+	nwallet := 0
+	if set.NeedWalletInput() {
+		before := len(set.Inputs())
+		if err := set.AddWalletInputs(r.wallet); err != nil {
+			return nil, 0, false
+		}
+		nwallet = len(set.Inputs()) - before
+	}
+	r.sw.markInputsPendingPublish(set)
+	r.set = set
+	return &BumpRequest{
+		Inputs:          set.Inputs(),
+		Budget:          set.Budget(),
+		DeadlineHeight:  set.DeadlineHeight(),
+		DeliveryAddress: lnwallet.AddrWithKey{DeliveryAddress: r.change},
+		MaxFeeRate:      chainfee.SatPerKWeight(r.maxRate),
+		StartingFeeRate: set.StartingFeeRate(),
+	}, nwallet, true
+}
+
+func (r *c18Run) newSweeper(deadline int64, maxRate int64, useAgg bool) {
+	r.sw = New(&UtxoSweeperConfig{})
+	r.order = nil
+	r.set = nil
+	r.rec, r.req, r.lastRes = nil, nil, nil
+	r.deadline, r.maxRate, r.useAgg = int32(deadline), maxRate, useAgg
+}
+
+// doReq offers the inputs of a generated schedule to the sweeper (the model
+// chose the sums and the rates offered before; values and budget are spread
+// over the inputs) and groups them into the request.
 func (r *c18Run) doReq(ev c18Event) {
 	r.newPublisher(ev.Est, ev.Relay, nil)
 	r.nin = 0
@@ -424,14 +512,36 @@ func (r *c18Run) doReq(ev c18Event) {
 		n = 1
 		ev.NK = 1
 	}
-	var ins []input.Input
+	r.newSweeper(ev.Deadline, ev.MaxRate, ev.Agg == 1)
+	ck := byte('k')
+	if ev.Dust == 330 {
+		ck = 't'
+	}
+	r.change = c18Script(ck, 0x7777)
+	total := ev.NR + n
+	prev := func(i int) int64 {
+		if i < len(ev.Prevs) {
+			return ev.Prevs[i]
+		}
+		if i == 0 && len(ev.Prevs) == 0 && ev.Sopt > 0 { // schedules without per-input rates
+			return ev.Sopt
+		}
+		return 0
+	}
+	bud := func(i int) int64 { // the budget spread over the inputs, the first one gets the remainder
+		b := ev.Budget / int64(total)
+		if i == 0 {
+			b += ev.Budget % int64(total)
+		}
+		return b
+	}
 	left := ev.TotalIn
 	for i := 0; i < ev.NR; i++ {
 		v := ev.ReqOut / int64(ev.NR)
 		if i == 0 {
 			v += ev.ReqOut % int64(ev.NR)
 		}
-		ins = append(ins, r.mkInput('k', v, v))
+		r.offer(r.mkInput('k', v, v), bud(i), prev(i))
 		left -= v
 	}
 	for i := 0; i < n; i++ {
@@ -443,35 +553,39 @@ func (r *c18Run) doReq(ev c18Event) {
 		if i >= ev.NK {
 			k = 't'
 		}
-		ins = append(ins, r.mkInput(k, v, -1))
+		r.offer(r.mkInput(k, v, -1), bud(ev.NR+i), prev(ev.NR+i))
 	}
-	ck := byte('k')
-	if ev.Dust == 330 {
-		ck = 't'
+	req, nwallet, ok := r.regroup()
+	if !ok {
+		return
 	}
-	r.change = c18Script(ck, 0x7777)
-	r.install("Req", &BumpRequest{
-		Budget:          btcutil.Amount(ev.Budget),
-		Inputs:          ins,
-		DeadlineHeight:  int32(ev.Deadline),
-		DeliveryAddress: lnwallet.AddrWithKey{DeliveryAddress: r.change},
-		MaxFeeRate:      chainfee.SatPerKWeight(ev.MaxRate),
-		StartingFeeRate: c18Start(ev.Sopt),
-	}, 0)
+	r.install("Req", req, nwallet)
 }
 
 // doRetry offers the inputs of a failed attempt again with the fee rate the
 // publisher handed back (UtxoSweeper.markInputsPublishFailed).
 func (r *c18Run) doRetry() {
-	if r.req == nil || r.lastRes == nil || r.lastRes.Event != TxFailed || r.lastRes.FeeRate == 0 {
+	if r.req == nil || r.rec == nil || r.set == nil || r.lastRes == nil || r.lastRes.Event != TxFailed ||
+		r.lastRes.FeeRate == 0 {
+
 		return
 	}
 	if _, ok := r.tp.records.Load(r.rec.requestID); ok {
 		return
 	}
-	req := *r.req
-	req.StartingFeeRate = fn.Some(r.lastRes.FeeRate)
-	r.install("Retry", &req, 0)
+	// the sweeper records the rate on every input of the failed set and groups
+	// its pending inputs again
+	r.sw.markInputsPublishFailed(r.set, r.lastRes.FeeRate)
+	budget := r.req.Budget
+	req, nwallet, ok := r.regroup()
+	if !ok {
+		r.rec = nil
+		return
+	}
+	if req.Budget == r.set.Budget() && len(req.Inputs) == len(r.req.Inputs) {
+		req.Budget = budget // keep a budget the driver had put on a rounding boundary
+	}
+	r.install("Retry", req, nwallet)
 }
 
 func (r *c18Run) done() {
@@ -813,12 +927,20 @@ func (r *c18Run) freePub(rng *rand.Rand, i int, all bool) {
 			nnorm = 0
 		}
 	}
-	inputs := InputsMap{}
-	sopt := fn.None[chainfee.SatPerKWeight]()
+	r.newSweeper(deadline, maxRate, true)
+	// the rate an input was offered before (a failed sweep of its own): none for
+	// most, otherwise anything from the relay fee to far above the new ceiling
+	prevRate := func() int64 {
+		if rng.Intn(3) > 0 {
+			return 0
+		}
+		return relay + rng.Int63n(c18Pick(rng, 50, 1000, 20000, 400000))
+	}
+	if rng.Intn(2) == 0 {
+		prevRate = func() int64 { return 0 }
+	}
 	add := func(in input.Input, budget int64) {
-		si := &SweeperInput{Input: in, params: Params{Budget: btcutil.Amount(budget),
-			DeadlineHeight: fn.Some(int32(deadline)), StartingFeeRate: sopt}, DeadlineHeight: int32(deadline)}
-		inputs[in.OutPoint()] = si
+		r.offer(in, budget, prevRate())
 	}
 	r.change = c18Script(byte(c18Pick(rng, 'k', 't')), 0x7777)
 	kinds := make([]byte, nnorm)
@@ -885,27 +1007,9 @@ func (r *c18Run) freePub(rng *rand.Rand, i int, all bool) {
 		add(r.mkInput('k', v, v), b)
 	}
 
-	agg := NewBudgetAggregator(r.est, 100, fn.None[AuxSweeper]())
-	sets := agg.ClusterInputs(inputs)
-	if len(sets) == 0 {
+	req, nwallet, ok := r.regroup()
+	if !ok {
 		return
-	}
-	set := sets[0]
-	nwallet := 0
-	if set.NeedWalletInput() {
-		before := len(set.Inputs())
-		if err := set.AddWalletInputs(r.wallet); err != nil {
-			return
-		}
-		nwallet = len(set.Inputs()) - before
-	}
-	req := &BumpRequest{
-		Inputs:          set.Inputs(),
-		Budget:          set.Budget(),
-		DeadlineHeight:  set.DeadlineHeight(),
-		DeliveryAddress: lnwallet.AddrWithKey{DeliveryAddress: r.change},
-		MaxFeeRate:      chainfee.SatPerKWeight(maxRate),
-		StartingFeeRate: set.StartingFeeRate(),
 	}
 	w, err := calcSweepTxWeight(req.Inputs, [][]byte{r.change})
 	if err != nil {
@@ -919,15 +1023,6 @@ func (r *c18Run) freePub(rng *rand.Rand, i int, all bool) {
 	if !tuned && rng.Intn(3) == 0 {
 		rate := relay + rng.Int63n(300000)
 		req.Budget = chainfee.SatPerKWeight(rate).FeeForWeight(w) + btcutil.Amount(rng.Intn(int(w)/1000+3))
-	}
-	if rng.Intn(4) == 0 {
-		lo, hi := relay, int64(maxRate)
-		if a, _ := req.MaxFeeRateAllowed(); int64(a) < hi {
-			hi = int64(a)
-		}
-		if hi >= lo {
-			req.StartingFeeRate = fn.Some(chainfee.SatPerKWeight(lo + rng.Int63n(hi-lo+1)))
-		}
 	}
 	if !all {
 		// the main domain: the ending rate the code computes is payable, and
@@ -962,6 +1057,9 @@ func (r *c18Run) freePub(rng *rand.Rand, i int, all bool) {
 	retries := 0
 	r.doInit(h, ans(rng.Intn(4)), pans())
 	for step := 0; step < 40; step++ {
+		if r.rec == nil {
+			return // nothing left to sweep after regrouping
+		}
 		if _, ok := r.tp.records.Load(r.rec.requestID); !ok {
 			// the record is gone: the sweeper offers the inputs again
 			if r.lastRes == nil || r.lastRes.Event != TxFailed || r.lastRes.FeeRate == 0 || retries >= 3 {
